@@ -286,7 +286,7 @@ func (t *loopTr) typeOf(e ast.Expr) lty {
 		switch fn {
 		case "fr.One", "One", "fr.Zero", "Zero":
 			return tK
-		case "len", "int", "uint64", "uint8", "uint32", "digit":
+		case "len", "int", "uint64", "uint8", "uint32", "digit", "bestC":
 			return tInt
 		case "batchToExtendedPointNormalized":
 			return tListG
@@ -398,6 +398,11 @@ func (t *loopTr) intExpr(e ast.Expr) string {
 				die("loops: digit() outside bucket-method mode")
 			}
 			return "(digit " + t.intExpr(x.Args[0]) + ")"
+		case "bestC":
+			if !t.msm {
+				die("loops: bestC() outside bucket-method mode")
+			}
+			return "(bestC " + t.intExpr(x.Args[0]) + ")"
 		case "len":
 			return "(((" + t.valExpr(x.Args[0]) + ").length : Nat) : Int)"
 		}
@@ -639,7 +644,7 @@ func (t *loopTr) valExpr(e ast.Expr) string {
 				die("loops: BatchInvert used before it is translated")
 			}
 			return "(" + t.lookupFn("BatchInvert").name + " " + t.valExpr(x.Args[0]) + ")"
-		case "int", "uint64", "uint8", "uint32", "len", "digit":
+		case "int", "uint64", "uint8", "uint32", "len", "digit", "bestC":
 			return t.intExpr(e)
 		case "batchToExtendedPointNormalized":
 			return "(normalize " + t.valExpr(x.Args[0]) + ")"
@@ -938,6 +943,23 @@ func (t *loopTr) block(ind string, stmts []ast.Stmt, k string, cont string) {
 			}
 		case *ast.AssignStmt:
 			define := x.Tok == token.DEFINE
+			if t.msm && len(x.Lhs) == 1 && (x.Tok == token.MUL_ASSIGN || x.Tok == token.SHL_ASSIGN || x.Tok == token.SHR_ASSIGN) {
+				id, ok := x.Lhs[0].(*ast.Ident)
+				if !ok || t.vars[id.Name] != tInt {
+					die("loops: %s: compound assignment on a non-integer", t.cur.name)
+				}
+				var v string
+				switch x.Tok {
+				case token.MUL_ASSIGN:
+					v = id.Name + " * " + t.intExpr(x.Rhs[0])
+				case token.SHL_ASSIGN:
+					v = "Loop.shl " + id.Name + " " + t.intExpr(x.Rhs[0])
+				case token.SHR_ASSIGN:
+					v = "Loop.shr " + id.Name + " " + t.intExpr(x.Rhs[0])
+				}
+				fmt.Fprintf(t.sb, "%slet %s : Int := %s\n", ind, id.Name, v)
+				continue
+			}
 			if (x.Tok == token.ADD_ASSIGN || x.Tok == token.SUB_ASSIGN) && len(x.Lhs) == 1 {
 				id, ok := x.Lhs[0].(*ast.Ident)
 				if !ok || t.vars[id.Name] != tInt {
